@@ -188,6 +188,33 @@ Proof.
   - intros F lF Ez. eapply face_to_edges_correct; eauto.
 Qed.
 
+(* ------------------------------------------------------------------ the remaining accessors *)
+Definition remaining_accessors_stmt (faces : list (list Z)) (m : mesh) (f : bool) : Prop :=
+  (forall F, p_face_to_vertices m f F = of_opt EIndex (zth faces F))
+  /\ (forall E, p_edge_to_vertices m f E = of_opt EIndex (zth (m_edges m) E))
+  /\ (forall E V, p_other_edge_end m f E V = sp_other_edge_end (m_edges m) E V)
+  /\ (forall F V lF, zth faces F = Some lF ->
+        exists r, p_in_face_index m f F V = Ok r /\
+          match r with
+          | Some i => zth lF i = Some V /\ (forall j, 0 <= j < i -> zth lF j <> Some V)
+          | None => ~ In V lF
+          end)
+  /\ (forall u v F, p_opposite_face_inds m f u v F = Ok (sp_opposite_face_inds faces u v F))
+  /\ (forall iF1 iF2 lF, zth faces iF1 = Some lF ->
+        p_common_edge m f iF1 iF2 = Ok (sp_common_edge_loop faces lF iF2 (zrange (zlen lF)))).
+
+Lemma remaining_accessors nv faces m f T :
+  wf_faces nv faces -> mesh_of nv faces m -> compute_connectivity m f = Ok T -> remaining_accessors_stmt faces m f.
+Proof.
+  intros Hw Hm HT. unfold remaining_accessors_stmt. split; [|split; [|split; [|split; [|split]]]].
+  - intros F. eapply face_to_vertices_correct; eauto.
+  - intros E. eapply edge_to_vertices_correct; eauto.
+  - intros E V. eapply other_edge_end_correct; eauto.
+  - intros F V lF Ez. eapply in_face_index_correct; eauto.
+  - intros u v F. eapply opposite_face_inds_correct; eauto.
+  - intros iF1 iF2 lF Ez. eapply common_edge_correct; eauto.
+Qed.
+
 Lemma build_mesh_ok nv faces :
   wf_faces nv faces -> mesh_of nv faces (build_mesh nv faces) /\ edges_exact faces (m_edges (build_mesh nv faces)).
 Proof. intros Hw. split; [apply build_mesh_of, Hw|]. cbn. eapply gen_edges_exact; eauto. Qed.
@@ -290,3 +317,14 @@ Proof. vm_compute. reflexivity. Qed.
 Example ex_vertex_ring_open : pure_answer (build_mesh 6 ex_faces) true (Q_vertex_to_vertices 0) = AList [Some 5; Some 3; Some 2; Some 1]
                               /\ sp_vertex_ring ex_faces [6; 3; 0] = [5; 3; 2; 1].
 Proof. split; vm_compute; reflexivity. Qed.
+
+(* what the correspondence verifies on every finished object (its own face list, edge container, corner container) implies
+   the hypotheses of all the theorems for the mesh the model is run on *)
+Lemma case_hypotheses_sound nv faces edges :
+  wf_mesh_b nv faces = true -> edges_ok_b faces edges = true ->
+  wf_mesh nv faces /\ mesh_of nv faces (mkMesh nv faces edges (gen_corners faces)) /\ edges_exact faces edges.
+Proof.
+  intros H1 H2. pose proof (wf_mesh_b_sound nv faces H1) as Hw.
+  destruct (edges_ok_b_sound nv faces edges (proj1 Hw) H2) as (_ & Hv & He).
+  split; [exact Hw|]. split; [|exact He]. unfold mesh_of. cbn. auto.
+Qed.
